@@ -142,6 +142,7 @@ def run(ctx):
     ctx.coverage["dynamic_bindings_accepted"] = len(acc)
     # ---- unobservable reads are rejected
     unobs = [("i", "a.quiet", True), ("i", "a.next != null ? a.next.quiet : 0", True), ("i", "{ let p = a.next; if (p != null) { return p.quiet } return 0 }", True),
+             ("i", "a.quietNext != null ? a.quietNext.i : 0", True), ("b", "a.quietNext == b", True), ("i", "{ let p = a.quietNext; return p != null ? p.i : 1 }", True),
              ("i", "a.ci", False), ("i", "a.next != null ? a.next.ci : 0", False), ("i", "a.i + a.quiet", True), ("b", "a.quiet > 0 || a.b", True)]
     ures = qml.run_docs(vh, [cxx.document([("tgt", pn, src)]) for pn, src, _ in unobs])
     for (pn, src, must), r in zip(unobs, ures):
